@@ -2,7 +2,7 @@
 #![allow(dead_code, static_mut_refs)]
 use super::*;
 use crate::kv::*;
-use crate::{kv_cover, kv_end};
+use crate::{kv_assert, kv_cover, kv_end};
 
 pub(crate) const SHAPE_SYM: u8 = 2;
 
@@ -49,15 +49,15 @@ fn trailing_defaults(l: &Line) -> usize {
 pub(crate) fn t_line_trim(n: usize) {
     let mut l = shaped_line(n, [SHAPE_SYM; 6], any_bool());
     let want = trailing_defaults(&l);
-    assert!(l.trailers() == want, "[C10] trailing blanks are counted exactly");
+    kv_assert!(l.trailers() == want, "[C10] trailing blanks are counted exactly");
     let j = any_in(0, n - 1);
     let cj = l.cells[j];
     let blank_line = l.is_blank();
-    assert!(blank_line == (want == n), "[C10] a line is blank exactly when every cell is a default blank");
+    kv_assert!(blank_line == (want == n), "[C10] a line is blank exactly when every cell is a default blank");
     l.trim();
-    assert!(l.cells.len() == n - want, "[C10] trimming removes exactly the trailing default blanks");
+    kv_assert!(l.cells.len() == n - want, "[C10] trimming removes exactly the trailing default blanks");
     if j < l.cells.len() {
-        assert!(l.cells[j] == cj, "[C10] trimming alters no remaining cell");
+        kv_assert!(l.cells[j] == cj, "[C10] trimming alters no remaining cell");
     }
     kv_cover!(want == n, "all blank");
     kv_cover!(want == 0, "no trailing blank");
@@ -75,32 +75,32 @@ pub(crate) fn t_line_contract(n: usize, len: usize) {
     let j = any_in(0, n - 1);
     let cj = l.cells[j];
     let rest = l.contract(len);
-    assert!(l.cells.len() == len, "[C10] a contracted line has exactly the new width");
+    kv_assert!(l.cells.len() == len, "[C10] a contracted line has exactly the new width");
     if j < len {
-        assert!(l.cells[j] == cj, "[C10] re-wrapping keeps the head of the line in place");
+        kv_assert!(l.cells[j] == cj, "[C10] re-wrapping keeps the head of the line in place");
     }
     match &rest {
         Some(r) => {
-            assert!(l.wrapped, "[C10] a line that continues on the next row is marked soft-wrapped");
-            assert!(r.wrapped == wrapped, "[C10] the continuation inherits the original mark");
-            assert!(!r.cells.is_empty() && r.cells.len() <= n - len, "[C10] the continuation holds at most the cells that did not fit");
+            kv_assert!(l.wrapped, "[C10] a line that continues on the next row is marked soft-wrapped");
+            kv_assert!(r.wrapped == wrapped, "[C10] the continuation inherits the original mark");
+            kv_assert!(!r.cells.is_empty() && r.cells.len() <= n - len, "[C10] the continuation holds at most the cells that did not fit");
             if j >= len {
                 if j - len < r.cells.len() {
-                    assert!(r.cells[j - len] == cj, "[C10] re-wrapping moves the overflow to the continuation unchanged and in order");
+                    kv_assert!(r.cells[j - len] == cj, "[C10] re-wrapping moves the overflow to the continuation unchanged and in order");
                 } else {
-                    assert!(!wrapped && cj.is_default() && j >= n - tr, "[C10] only trailing blanks of an unwrapped line are dropped");
+                    kv_assert!(!wrapped && cj.is_default() && j >= n - tr, "[C10] only trailing blanks of an unwrapped line are dropped");
                 }
             }
             if wrapped {
-                assert!(r.cells.len() == n - len, "[C10] nothing of a soft-wrapped line is dropped");
+                kv_assert!(r.cells.len() == n - len, "[C10] nothing of a soft-wrapped line is dropped");
             }
         }
         None => {
-            assert!(l.wrapped == wrapped, "[C10] without overflow the mark is unchanged");
+            kv_assert!(l.wrapped == wrapped, "[C10] without overflow the mark is unchanged");
             if j >= len {
-                assert!(!wrapped && cj.is_default() && j >= n - tr, "[C10] only trailing blanks of an unwrapped line are dropped");
+                kv_assert!(!wrapped && cj.is_default() && j >= n - tr, "[C10] only trailing blanks of an unwrapped line are dropped");
             }
-            assert!(!wrapped && n - tr <= len, "[C10] overflow is dropped only when it is all trailing blanks of an unwrapped line");
+            kv_assert!(!wrapped && n - tr <= len, "[C10] overflow is dropped only when it is all trailing blanks of an unwrapped line");
         }
     }
     kv_cover!(rest.is_some() && !wrapped, "an unwrapped line is split");
@@ -137,52 +137,52 @@ pub(crate) fn t_line_extend(la: usize, lb: usize, len: usize, a_wrapped: bool, b
     }
     let eff = if b_wrapped { lb } else { lb - b_trail }; // cells of b'
     let (done, rest) = a.extend(b, len);
-    assert!(a.cells[ja] == ca, "[C10] re-wrapping keeps the head of the line in place");
+    kv_assert!(a.cells[ja] == ca, "[C10] re-wrapping keeps the head of the line in place");
     if needed == 0 || !a_wrapped {
         // nothing moves
-        assert!(done, "[C10] a full or unwrapped line is complete");
-        assert!(a.cells.len() == len && a.wrapped == a_wrapped, "[C10] an unwrapped line is only padded to the new width");
+        kv_assert!(done, "[C10] a full or unwrapped line is complete");
+        kv_assert!(a.cells.len() == len && a.wrapped == a_wrapped, "[C10] an unwrapped line is only padded to the new width");
         if ja >= la {
             unreachable!();
         }
         let pad = any_in(0, len - 1);
         if pad >= la {
-            assert!(a.cells[pad].is_default(), "[C10] padding consists of default blanks");
+            kv_assert!(a.cells[pad].is_default(), "[C10] padding consists of default blanks");
         }
         match &rest {
             Some(r) => {
-                assert!(r.cells.len() == lb && r.cells[jb] == cb && r.wrapped == b_wrapped, "[C10] the next line is handed back untouched");
+                kv_assert!(r.cells.len() == lb && r.cells[jb] == cb && r.wrapped == b_wrapped, "[C10] the next line is handed back untouched");
             }
-            None => assert!(false, "[C10] the next line must not be swallowed"),
+            None => kv_assert!(false, "[C10] the next line must not be swallowed"),
         }
     } else if needed < eff {
-        assert!(done && a.wrapped, "[C10] a soft-wrapped line that was filled stays soft-wrapped");
-        assert!(a.cells.len() == len, "[C10] the line is filled to the new width");
+        kv_assert!(done && a.wrapped, "[C10] a soft-wrapped line that was filled stays soft-wrapped");
+        kv_assert!(a.cells.len() == len, "[C10] the line is filled to the new width");
         match &rest {
             Some(r) => {
-                assert!(r.wrapped == b_wrapped && r.cells.len() == eff - needed, "[C10] the remainder keeps its mark and everything that was not taken");
+                kv_assert!(r.wrapped == b_wrapped && r.cells.len() == eff - needed, "[C10] the remainder keeps its mark and everything that was not taken");
                 if jb < needed {
-                    assert!(a.cells[la + jb] == cb, "[C10] cells move up from the next row unchanged and in order");
+                    kv_assert!(a.cells[la + jb] == cb, "[C10] cells move up from the next row unchanged and in order");
                 } else if jb < eff {
-                    assert!(r.cells[jb - needed] == cb, "[C10] the rest of the next row stays in order");
+                    kv_assert!(r.cells[jb - needed] == cb, "[C10] the rest of the next row stays in order");
                 }
             }
-            None => assert!(false, "[C10] content left over must not be lost"),
+            None => kv_assert!(false, "[C10] content left over must not be lost"),
         }
     } else {
         // all of b' fits
         if jb < eff {
-            assert!(a.cells[la + jb] == cb, "[C10] cells move up from the next row unchanged and in order");
+            kv_assert!(a.cells[la + jb] == cb, "[C10] cells move up from the next row unchanged and in order");
         }
-        assert!(rest.is_none(), "[C10] nothing is left of a row that was taken completely");
+        kv_assert!(rest.is_none(), "[C10] nothing is left of a row that was taken completely");
         if !b_wrapped {
-            assert!(done && !a.wrapped && a.cells.len() == len, "[C10] the logical line ends here: unwrapped and padded to the new width");
+            kv_assert!(done && !a.wrapped && a.cells.len() == len, "[C10] the logical line ends here: unwrapped and padded to the new width");
             let pad = any_in(0, len - 1);
             if pad >= la + eff {
-                assert!(a.cells[pad].is_default(), "[C10] padding consists of default blanks");
+                kv_assert!(a.cells[pad].is_default(), "[C10] padding consists of default blanks");
             }
         } else {
-            assert!(!done && a.wrapped && a.cells.len() == la + lb, "[C10] the logical line continues: more rows are needed");
+            kv_assert!(!done && a.wrapped && a.cells.len() == la + lb, "[C10] the logical line continues: more rows are needed");
         }
     }
     kv_end!();
